@@ -17,6 +17,12 @@ and opened with DebFile(fileobj=BytesIO).
     DebFile object: data/control/data/scripts/data..., control first, and get_file() streams read in 4096-byte chunks
     with control queries (or a second stream, of the control part or of another data file) between the chunks.
 
+  * empty contents: packages in which something is present but empty - 0-byte maintainer scripts (each single one, all
+    five, mixes with non-empty ones), a 0-byte md5sums member, 0-byte data files next to non-empty ones, a data tarball
+    without files (with and without the "./" root entry), control fields whose value is the empty string, a control
+    file without fields, and all of it at once - each in the full 150-configuration matrix; their data files (and
+    every 0-byte data file of the other contents) are also read through get_file().
+
 Oracle: what was packed (the generator's own lists), never anything read back through the code under test.
 """
 import io
@@ -35,7 +41,8 @@ RULE = ("inputs = (content, configuration) pairs and defective member sets, walk
         "-> control compression -> data compression -> member order -> history -> its operations on ONE DebFile object "
         "(get_content / has_file / debcontrol / scripts / md5sums / get_file + read(n) chunks, alternating between the "
         "control and the data part); there a state is an operation prefix, a transition one operation whose result is "
-        "compared with what was packed, a trace one complete history")
+        "compared with what was packed, a trace one complete history.  Empty-content packages (0-byte scripts / md5sums / "
+        "data files, member-less data tarball, empty field values) are further contents of the first tree")
 BUDGET = {"quick": 240, "thorough": 3000}
 
 ORDERS = list(itertools.permutations((0, 1, 2)))
@@ -71,6 +78,7 @@ def bounds(tier):
                 "histories": dict((k, list(v)) for k, v in LARGE_HISTORIES.items()),
                 "stream_chunk_sizes": CHUNK[tier],
                 "part_sizes": "every compressed part of big-both/huge-both and every data part exceeds 8192 bytes (20 KB..280 KB)"},
+            "empty_contents": [name for name, _c in empties(0)],
             "open_mode": "DebFile(fileobj=io.BytesIO(...))"}
 
 
@@ -89,7 +97,13 @@ def assumptions():
             "bytes (fewer only at the end of the member, b'' after it) whatever else was queried on the same DebFile object in "
             "between; a history stops at its first wrong observation.  Any exception (LZMAError, EOFError, zlib.error, "
             "tarfile.ReadError...) raised while reading a well-formed package is a violation",
-            "tar members are './name' with a './' root entry and intermediate directory entries (as dpkg-deb writes them), GNU format"]
+            "tar members are './name' with a './' root entry and intermediate directory entries (as dpkg-deb writes them), GNU "
+            "format; one empty-content package has a data tarball with no member at all (what tar writes for an empty file list)",
+            "empty contents: the statement says 'a control file, maintainer scripts, an md5sums list and data files' "
+            "without demanding that any of them has content: a 0-byte script is a packed script (scripts() must list it "
+            "with b''), a 0-byte md5sums member is an empty list ({}), a 0-byte data file is a file (has_file True, content "
+            "b'', get_file() gives an object whose read() is b''), a field written as 'Name:' has the value '' and a 0-byte "
+            "control file has no fields; the unchanged library returns exactly that for all of them"]
 
 
 # ------------------------------------------------------------------------------------------------ content
@@ -208,6 +222,44 @@ def contents_for(tier, seed):
         cv, sc, md5 = cs[j]
         out.append({"control": [list(p) for p in cv], "scripts": [list(p) for p in sc],
                     "md5": [list(p) for p in md5_entries(md5, ds[i])], "data": [list(p) for p in ds[i]]})
+    out += [c for _name, c in empties(seed)]
+    return out
+
+
+def empties(seed):
+    """-> [(name, content)]: well-formed packages in which something is present but EMPTY, simplest first"""
+    x, binary, text = symbols(seed)
+    names = data_names(seed)
+    cv = control_variants(seed)
+    body = lambda n: script_body(n, seed)  # noqa: E731
+    one = [[names[0], text]]
+    out = []
+
+    def add(name, control=cv[0], scripts=(), md5="data", data=one, **kw):
+        data = [list(p) for p in data]
+        md5e = md5_entries(md5, [tuple(p) for p in data])
+        c = {"control": [list(p) for p in control], "scripts": [list(p) for p in scripts], "md5": [list(p) for p in md5e],
+             "data": data, "empties": name}
+        c.update(kw)
+        out.append((name, c))
+    for n in db.SCRIPTS:
+        add("script %s empty, alone" % n, scripts=[(n, b"")])
+    add("all five scripts empty", scripts=[(n, b"") for n in db.SCRIPTS])
+    add("scripts empty/non-empty alternating, first empty", control=cv[1],
+        scripts=[(n, b"" if i % 2 == 0 else body(n)) for i, n in enumerate(db.SCRIPTS)])
+    add("scripts non-empty/empty alternating, first non-empty", md5="fixed",
+        scripts=[(n, b"" if i % 2 == 1 else body(n)) for i, n in enumerate(db.SCRIPTS)])
+    add("one empty script between its neighbours' absence, empty md5sums", md5="empty", scripts=[("postinst", b""), ("config", body("config"))])
+    add("empty data files around non-empty ones", control=cv[2],
+        data=[(names[0], b""), (names[1], text), (names[2], b""), (names[3], binary)])
+    add("only empty data files, empty md5sums", md5="empty", data=[(names[1], b""), (names[0], b"")])
+    add("data tarball without files and without root entry", data=[], bare_data_tar=True)
+    add("empty field values: last and middle", control=[("Package", x), ("Description", ""), ("Version", "1"), ("X-Empty", "")])
+    add("empty field values: first, and before a multi-line value", scripts=[("prerm", b"")],
+        control=[("Package", ""), ("Version", "1"), ("Depends", ""), ("Description", "s\n long")])
+    add("control file without fields", control=[], data=[])
+    add("everything empty", control=[("Package", ""), ("Version", "")], scripts=[(n, b"") for n in db.SCRIPTS], md5="empty",
+        data=[(names[0], b""), (names[1], b""), (names[2], b"")])
     return out
 
 
@@ -347,6 +399,16 @@ def open_others():
     return keep
 
 
+def _read_all(f):
+    """read() of what get_file() returned (a mistake of the reader, e.g. None for an empty member, shows as the result)"""
+    if f is None or not hasattr(f, "read"):
+        return "get_file returned %r" % (f,)
+    try:
+        return f.read()
+    finally:
+        f.close()
+
+
 def check_valid(raw, content, names_universe, interleave=False):
     """Open one well-formed package and compare every observation with what was packed.
     -> list of (sig, expected, observed)"""
@@ -389,6 +451,12 @@ def check_valid(raw, content, names_universe, interleave=False):
             ok, got = attempt("deb/data/contains/" + sp, lambda: q in deb.data)
             if ok and got is not True:
                 bad.append(("deb/data/contains/" + sp, True, got))
+            # get_file(): every spelling in the empty-content packages; elsewhere for 0-byte files, one spelling each
+            # (non-empty files are streamed through get_file() by the large-package histories)
+            if content.get("empties") or (not data and sp == SPELLINGS[len(name) % 3][0]):
+                ok, got = attempt("deb/data/get_file/" + sp, lambda: _read_all(deb.data.get_file(q)))
+                if ok and got != data:
+                    bad.append(("deb/data/get_file/" + sp, data, got))
 
     def q_absent(name):
         classes = []
@@ -477,7 +545,7 @@ class Packer(object):
         ctrl = db.control_files([tuple(p) for p in content["control"]], [tuple(p) for p in content["scripts"]],
                                 [tuple(p) for p in content["md5"]])
         ctar = db.tar_bytes(ctrl, with_dirs=False)
-        dtar = db.tar_bytes([tuple(p) for p in content["data"]])
+        dtar = db.tar_bytes([tuple(p) for p in content["data"]], with_root=not content.get("bare_data_tar"))
         self.parts = {}
         for k in db.COMPRESSIONS:
             self.parts[("control", k)] = _compress_cached(ctar, k)
@@ -779,6 +847,7 @@ def run_unit(u, tier, seed):
         part.extra["order %s" % "".join("bcd"[i] for i in order)] += 1
         part.extra["data files=%d" % len(content["data"])] += 1
         part.extra["scripts=%d" % len(content["scripts"])] += 1
+        part.extra["empty scripts=%d" % len([1 for _n, c in content["scripts"] if not c])] += 1
     # isolation: the same observations with another package opened (and a defective one refused) in between
     for cc, dc, order in (CONFIGS[0], CONFIGS[len(CONFIGS) // 2], CONFIGS[-1]):
         raw = pk.raw(cc, dc, order)
